@@ -26,11 +26,9 @@ def item_text(it):
     if k == "X": return None
     if k == "E":
         code, cust, ext = parse_error_spec(v)
-        import translate
         msg = cust
         if msg is None:
-            _, entries = translate.gen_errors()
-            msg = dict((c, m) for _, c, m in entries)[code]
+            msg = dict((c, m) for _, c, m in error_table())[code]
         q = lambda b: b.replace(b'"', b'""')
         if ext is not None:
             return str(code).encode() + b',"' + q(msg) + b";" + q(ext) + b'"'
